@@ -40,8 +40,16 @@ pub open spec fn prot_none() -> int { 0 }
 pub open spec fn prot_read() -> int { 1 }
 pub open spec fn prot_rw() -> int { (1i32 | 2i32) as int }   // PROT_READ | PROT_WRITE (= 3)
 
-/// start address of a slice (opaque: only equalities between addresses are ever used)
-pub uninterp spec fn slice_addr<T>(s: &[T]) -> int;
+/// Start address of a slice.  MODELLING LIMIT: Verus has no object identity for safe references — a `&[T]`
+/// is a mathematical value determined by its contents (vstd `axiom_slice_ext_equal`).  The "address" is
+/// therefore an uninterpreted function of the slice VALUE: the contracts identify the region handed to the
+/// kernel as "the slice whose contents are the container's contents at the time of the call".  Only equalities
+/// between such terms (and the offsets computed by the allocator from a raw pointer) are ever used.
+pub uninterp spec fn seq_addr<T>(s: Seq<T>) -> int;
+
+pub open spec fn slice_addr<T>(s: &[T]) -> int {
+    seq_addr(s@)
+}
 
 // ---- page arithmetic ------------------------------------------------------------------------------------
 /// number of P-byte pages spanned by `n` bytes that start on a page boundary:  ceil(n / P)
